@@ -29,6 +29,7 @@ use super::*;
 //@include prelude/clitree_spec.rs
 //@include prelude/clitree_list_spec.rs
 //@include prelude/clitree_list_l1.rs
+//@include prelude/clitree_l2.rs
 } // mod pre
 use pre::*;
 
